@@ -156,7 +156,8 @@ class Entity(Decl):
         self.head_semi = toks[k]
         body = toks[k + 1:-2] if toks[-1].text == ";" else toks[k + 1:-1]
         self.end_kw = [t for t in toks if t.low == "end_entity"][-1]
-        self.sections = [t.low for t in body if t.kind == "kw" and t.low in _SECTIONS]
+        # a section keyword opens a section only at the start of a statement (UNIQUE also occurs inside aggregate types)
+        self.sections = [t.low for i, t in enumerate(body) if t.kind == "kw" and t.low in _SECTIONS and (i == 0 or body[i - 1].text == ";")]
         self.supers = []
         self.super_close = None      # ')' token of SUBTYPE OF ( ... )
         self.has_supertype_clause = any(t.low == "supertype" for t in self.head)
@@ -178,7 +179,7 @@ class Entity(Decl):
         self.redeclares = False
         stmt = []
         for t in body:
-            if t.kind == "kw" and t.low in _SECTIONS:
+            if t.kind == "kw" and t.low in _SECTIONS and not stmt:
                 break
             stmt.append(t)
             if t.text == ";":
